@@ -328,5 +328,20 @@ PROPS["C16"] = {
     "assumptions": ["cfb issues no medium write for open_stream / exists / iteration (observed every run)"],
 }
 
+PROPS["C15"] = {
+    "module": "MsiProofs.Props.C15",
+    "gen": ["flush"],
+    "profiles": ["dev"],
+    "theorems": ["MsiProofs.C15.run_ok_mono", "MsiProofs.C15.step_ok", "MsiProofs.C15.no_swallow", "MsiProofs.C15.writers_flush",
+                 "MsiProofs.C15.writer_wellFlushed", "MsiProofs.C15.api_no_swallow", "MsiProofs.C15.unflushed_writer_swallows"],
+    "level_text": "Lean theorems on an effect model (scripts of container actions under the stated cfb contract K1-K5; for every fault assignment, every number of buffer spills, every combination of pending summary/pool): a call whose script flushes every stream before dropping it cannot return Ok after a failed medium write; the four stream writers do flush and flush()/into_inner() propagate the finisher (extracted from the current source on every run), hence every DML call, the finisher and flush have the property; an unflushed writer provably swallows. Partial: the order/number of cfb's own sector writes and partial writes are outside the model. Tie: fault enumeration on the real code: for 5 (quick) / 6 (thorough) scripts, every index k of the medium's write, read and seek calls, transient and persistent: no panic, no call Ok with a failed medium call during it, and after an all-Ok run ending in flush (package forgotten = crash) or into_inner the bytes reopen to the fault-free state.",
+    "level_note": "Trusted: Lean kernel; the cfb contract K1-K5 (not proved; observed by the sweep); translator (flush discipline of write_rows, write_pool, write_data, PropertySet::write, Package::flush, into_inner); fault-injecting medium in harness/src/session.rs.",
+    "technique": "Lean 4 proof on an effect model + static flush-discipline extraction + exhaustive single-fault enumeration on the real code",
+    "rule": "scripts: create package; create table + 300-row insert; update + delete; drop table; stream write + summary + code page; insert + into_inner. For each: every index of the write / read / seek calls of the fault-free run, one failing call (transient) or all from there (persistent). non-trivial = sweeps; evaluations = fault points",
+    "trusted_base": ["effect model lean/MsiModel/Effects.lean (contract K1-K5 of cfb 0.10)", "Gen/Flush.lean regenerated from table.rs, stringpool.rs, propset.rs, package.rs"],
+    "assumptions": ["cfb: every operation except Stream::drop reports a failed medium write; after a successful Stream::flush, dropping the stream writes nothing"],
+    "exhaustive": True,
+}
+
 # reasons for properties not claimed (yet); everything else defaults to "not yet built"
 NOT_CLAIMED = {}
